@@ -706,6 +706,12 @@ def _render_builtin_operation(expression, ir, field_reader, subexpressions):
         intermediate_type = "bool"
     arg_types = [_cpp_basic_type_for_expression(arg, ir) for arg in args]
     result_type = _cpp_basic_type_for_expression(expression, ir)
+    if expression.function.function == ir_data.FunctionMapping.CHOICE:
+        # The result of `?:` is one of its branches, so it needs no wider
+        # intermediate type (Choice() insists on IntermediateT == ResultT).  When
+        # the condition is a compile-time constant, the result only has the range
+        # of the selected branch, which can be narrower than the other branch.
+        intermediate_type = result_type
     function_variant = "</**/{}, {}, {}>".format(
         intermediate_type, result_type, ", ".join(arg_types)
     )
